@@ -24,6 +24,8 @@ def gen_scenario(rng: random.Random, focus: str = "any") -> dict:
         "queue_size": rng.choice([1, 2, 3]),
         "timed": False,
     }
+    if rng.random() < 0.3:
+        sc["time_scale"] = rng.choice([0.5, 2.0, 4.0])
     n = rng.randint(1, 6)
     client = []
     for _ in range(n):
